@@ -114,7 +114,10 @@ PRIOR = ["absent", "complete", "other-version", "other-data", "meta-missing", "m
          "index-missing", "index-damaged", "index-emptied",
          # an index that opens but does NOT hold the shipped data (committed empty), under metadata of
          # this version whose data hash is wrong / absent / null: "written for other data"
-         "stale-wrong-hash", "stale-no-hash", "stale-null-hash"]
+         "stale-wrong-hash", "stale-no-hash", "stale-null-hash",
+         # an index that opens and holds an EARLIER GENERATION of the data (a withdrawn constant, a
+         # revised one), under metadata of this version with another data hash / of another version
+         "olddocs-wrong-hash", "olddocs-other-version", "olddocs-no-hash"]
 
 
 def make_prior(xdg, kind, template):
@@ -146,6 +149,15 @@ def make_prior(xdg, kind, template):
     elif kind == "index-emptied":
         for f in (facts / "index").iterdir():
             f.unlink()
+    elif kind.startswith("olddocs-"):
+        subprocess.run([C.harness_bin(False), "dbstale", str(facts / "index")], capture_output=True, text=True, timeout=120, env=C.ENV)
+        if kind == "olddocs-wrong-hash":
+            j["database_hash"] = "e" * 32
+        elif kind == "olddocs-other-version":
+            j["version"] = "0.0.2"
+        else:
+            j.pop("database_hash", None)
+        meta.write_text(json.dumps(j))
     elif kind.startswith("stale-"):
         # a start killed right after the index was created leaves a committed EMPTY index
         shutil.rmtree(facts / "index")
@@ -182,7 +194,8 @@ class C15(Prop):
 
     def scenarios(self, rng, tier):
         probes = ["population finland", "mass earth", "population world", "radius moon", "distance sun", "mass sun",
-                  "population sweden", "orbital period mars", "nothing such thing", "c"]
+                  "population sweden", "orbital period mars", "nothing such thing", "c", "mass vulcan", "population atlantis"]
+        nfacts = len([f for f in dump_facts() if "tokens" in f])
         rc, fresh = dbopen("mem", probes, tag="c15")
         tmpl = SCR / "xdg-c15-template"
         shutil.rmtree(tmpl, ignore_errors=True)
@@ -214,8 +227,12 @@ class C15(Prop):
             name = f"prior={prior} crashes={cps}"
             final_meta = meta_state(xdg, current)
             observed = "M " + ",".join(trace) + " F " + final_meta + (" ANSWERS-FRESH" if lines == fresh else " ANSWERS-DIFFER")
+            cnt = subprocess.run([C.harness_bin(False), "dbcount", str(xdg / "facts" / "index")], capture_output=True, text=True, timeout=120, env=C.ENV).stdout.strip()
             if lines != fresh:
-                spec_fail.append((f"history:{prior}:{cps}", name, f"{name}: answers after restart differ from a fresh in-memory database: {lines[:3]}"))
+                diff = [C.unhex(l.split(" ")[1]) if l.startswith("A ") and len(l.split(" ")) > 1 else l for l, r in zip(lines, fresh) if l != r][:3]
+                spec_fail.append((f"history:{prior}:{cps}", name, f"{name}: answers after restart differ from a fresh in-memory database: {diff}"))
+            elif cnt != f"COUNT {nfacts}":
+                spec_fail.append((f"history:{prior}:{cps}", name, f"{name}: after a complete start the index holds `{cnt}` documents, the shipped data has {nfacts} constants"))
             else:
                 nontriv += 1
             if pr != observed:
@@ -490,6 +507,22 @@ class C18(Prop):
                 t = "round( " + t + " )"
             if rng.chance(1, 8) and used:
                 t = t + " * nosuchfact here"   # a failing lookup after successful ones
+            texts.append((t, used))
+        # one query string with SEVERAL results that look up the same phrase again (the results of
+        # one query share one description log)
+        for _ in range(60 if tier == "quick" else 1500):
+            p1, p2 = rng.choice(good), rng.choice(good)
+            form = rng.below(5)
+            if form == 0:
+                t, used = f"({p1}) (2 * {p1})", [p1, p1]
+            elif form == 1:
+                t, used = f"{p1} (3 / {p1})", [p1, p1]
+            elif form == 2:
+                t, used = f"({p1}) ({p2}) ({p1})", [p1, p2, p1]
+            elif form == 3:
+                t, used = f"({p1} * 2) ({p1} * {p1})", [p1, p1, p1]
+            else:
+                t, used = f"(1) ({p1}) (2) ({p1} / {p2})", [p1, p2, p1]
             texts.append((t, used))
         # several queries against the same instance, in varying orders (duplicates included)
         order = list(range(len(texts))) + [rng.below(len(texts)) for _ in range(len(texts) // 2)]
